@@ -108,6 +108,9 @@ func (w *world) catalogue(thorough bool) []tcase {
 	}
 	for _, sc := range w.rootsScenarios() {
 		sc := sc
+		if thorough {
+			sc.full = true
+		}
 		for _, c := range w.rootsCorrs(&sc) {
 			c := c
 			add("roots", sc.name, c, func() *result { return w.runRoots(&sc, c) })
@@ -115,6 +118,9 @@ func (w *world) catalogue(thorough bool) []tcase {
 	}
 	for _, sc := range w.appendScenarios() {
 		sc := sc
+		if thorough {
+			sc.full = true
+		}
 		for _, c := range w.appendCorrs(&sc) {
 			c := c
 			add("append", sc.name, c, func() *result { return w.runAppend(&sc, c) })
@@ -122,6 +128,9 @@ func (w *world) catalogue(thorough bool) []tcase {
 	}
 	for _, sc := range w.freeScenarios() {
 		sc := sc
+		if thorough {
+			sc.full = true
+		}
 		for _, c := range w.freeCorrs(&sc) {
 			c := c
 			add("free", sc.name, c, func() *result { return w.runFree(&sc, c) })
@@ -129,6 +138,9 @@ func (w *world) catalogue(thorough bool) []tcase {
 	}
 	for _, sc := range w.fundScenarios() {
 		sc := sc
+		if thorough {
+			sc.full = true
+		}
 		for _, c := range w.fundCorrs(&sc) {
 			c := c
 			add("fund", sc.name, c, func() *result { return w.runFund(&sc, c) })
@@ -136,6 +148,9 @@ func (w *world) catalogue(thorough bool) []tcase {
 	}
 	for _, sc := range w.replenishScenarios() {
 		sc := sc
+		if thorough {
+			sc.full = true
+		}
 		for _, c := range w.replenishCorrs(&sc) {
 			c := c
 			add("replenish", sc.name, c, func() *result { return w.runReplenish(&sc, c) })
@@ -165,48 +180,64 @@ func runC10(c *hx.Ctx) {
 		json.Unmarshal(b, &rp)
 		only, seed = rp.Replay.Case, rp.Replay.Seed
 	}
-	w := newWorld(rng.New(seed))
-	defer w.l.Close()
-	cat := w.catalogue(c.Thorough)
 	var cases []string
 	okBy := map[string]int{}
 	spent := map[string]time.Duration{}
-	for _, tc := range cat {
-		name := tc.rpc + "/" + tc.scen + "/" + tc.corr
-		if only != "" && name != only {
-			continue
-		}
-		t0 := time.Now()
-		r := tc.run()
-		spent[tc.rpc] += time.Since(t0)
-		if d := time.Since(t0); d > time.Second {
-			res.Notes = append(res.Notes, fmt.Sprintf("slow case %s: %v (client ok=%v err=%q) host notes %v", name, d, r.ok, r.errStr, r.x.Notes))
-		}
-		if r.panicked { // neither Ok nor Err: no outcome of the model matches
-			r.coq = strings.Replace(r.coq, " OErr", " OPanic", 1)
-		}
-		cases = append(cases, "("+r.coq+")")
-		res.Eval(name, r.nontrivial)
-		res.Count("rpc:" + tc.rpc)
-		res.Count("corruption-class:" + corrClass(tc.corr))
-		if r.ok {
-			res.Count("outcome:ok")
-			okBy[tc.rpc]++
-			if !strings.HasSuffix(tc.corr, "honest") {
-				res.Count("outcome:ok-on-corrupted-response-binding-holds")
+	total := 0
+	// the thorough tier plays the whole catalogue in three worlds (other keys, other
+	// sector bytes, other leaf indices drawn by RPCVerifySector)
+	for wi := 0; wi < c.Scale(1, 3); wi++ {
+		w := newWorld(rng.New(seed + uint64(wi)*1000003))
+		cat := w.catalogue(c.Thorough)
+		total += len(cat)
+		for _, tc := range cat {
+			name := tc.rpc + "/" + tc.scen + "/" + tc.corr
+			if wi > 0 {
+				name = fmt.Sprintf("world%d:%s", wi, name)
 			}
-		} else {
-			res.Count("outcome:err")
+			if only != "" && name != only {
+				continue
+			}
+			t0 := time.Now()
+			r := tc.run()
+			spent[tc.rpc] += time.Since(t0)
+			if d := time.Since(t0); d > time.Second {
+				res.Notes = append(res.Notes, fmt.Sprintf("slow case %s: %v (client ok=%v err=%q) host notes %v", name, d, r.ok, r.errStr, r.x.Notes))
+			}
+			if r.panicked { // neither Ok nor Err: no outcome of the model matches
+				r.coq = strings.Replace(r.coq, " OErr", " OPanic", 1)
+			}
+			cases = append(cases, "("+r.coq+")")
+			res.Eval(name, r.nontrivial)
+			res.Count("rpc:" + tc.rpc)
+			res.Count("corruption-class:" + corrClass(tc.corr))
+			if r.ok {
+				res.Count("outcome:ok")
+				okBy[tc.rpc]++
+				if !strings.HasSuffix(tc.corr, "honest") {
+					res.Count("outcome:ok-on-corrupted-response-binding-holds")
+					if os.Getenv("C10_LIST_OK") != "" {
+						res.Notes = append(res.Notes, "ok: "+name)
+					}
+				}
+			} else {
+				res.Count("outcome:err")
+			}
+			if o, ok := r.extra["observation"]; ok {
+				res.Count("observe:latest-revision-with-invalid-host-signature-returned")
+				_ = o
+			}
+			for _, f := range r.fails {
+				res.Fail(f.kind, name+": "+f.detail, map[string]any{
+					"case": name, "seed": seed, "rpc": tc.rpc, "scenario": tc.scen, "corruption": tc.corr,
+					"client_error": r.errStr, "client_ok": r.ok, "exchange": r.x, "extra": r.extra, "coq_case": r.coq,
+				})
+			}
+			if len(res.Samples) < 5 && r.nontrivial && (len(cases)%97 == 1) {
+				res.Sample(map[string]any{"case": name, "client_ok": r.ok, "client_error": r.errStr, "coq_case": r.coq})
+			}
 		}
-		for _, f := range r.fails {
-			res.Fail(f.kind, name+": "+f.detail, map[string]any{
-				"case": name, "seed": seed, "rpc": tc.rpc, "scenario": tc.scen, "corruption": tc.corr,
-				"client_error": r.errStr, "client_ok": r.ok, "exchange": r.x, "extra": r.extra, "coq_case": r.coq,
-			})
-		}
-		if len(res.Samples) < 5 && r.nontrivial && (len(cases)%97 == 1) {
-			res.Sample(map[string]any{"case": name, "client_ok": r.ok, "client_error": r.errStr, "coq_case": r.coq})
-		}
+		w.l.Close()
 	}
 	for k, v := range spent {
 		res.CountN("ms-by-rpc:"+k, int(v.Milliseconds()))
@@ -215,7 +246,7 @@ func runC10(c *hx.Ctx) {
 		res.CountN("ok-by-rpc:"+k, v)
 	}
 	res.Exhaustive = only == ""
-	res.Explored = map[string]any{"catalogue_size": len(cat), "executed": len(cases)}
+	res.Explored = map[string]any{"catalogue_size": total, "executed": len(cases)}
 	res.Notes = append(res.Notes,
 		"RPCLatestRevision and RPCSettings return what the host sent without any verification (the client has neither the consensus state nor a price-table check there); the property text does not list them, they are modelled as pass-through and counted under corruption-class/observe",
 		"proof_ok / sig_ok bits of the Coq cases are computed by the harness with core's verifiers on its own decoding of the bytes the host sent")
